@@ -372,7 +372,10 @@ def run_arr(aa, lu, v, shape, seed):
                 lambda: "shape %s corner %s %s Array2D.original_orientation -> %s, want %s"
                 % (shape, c, storage, ("%s: %s" % (type(e).__name__, e)) if e is not None else arr(val).tolist(), a.tolist()),
             )
-            # Layout2D.original_orientation_from given the Array2D itself
+            # Layout2D.original_orientation_from given the Array2D itself (native-stored only: the method documents an
+            # ndarray argument and makes no promise for a slim-stored structure, so that form is not demanded)
+            if storage != "native-stored":
+                continue
             val, e = _try(lambda: lay.original_orientation_from(array=A))
             fid = aid if (not okA and storage == "native-stored") else "Layout2D.original_orientation_from:%s-Array2D" % storage
             v.ok(
